@@ -833,3 +833,137 @@ def run_detachfail(prog, ctx=None):
                    "" if bad is None else "`%s` did not deliver a private copy, yet %s() answers `%s`: the caller takes the handle for private and changes the shared buffer in place" % (
                        norm(show(call, f))[:60], f.name, norm(show(bad, f))))
     return res
+
+
+def run_detachsame(prog, ctx=None):
+    """DETACHSAME: a `detach` implementation (the function a buffer's vtable names for making a handle's buffer private and
+    large enough) answers with the buffer it was handed only where that buffer has a single holder: at every return of (a
+    pointer into) its own argument the interval of the reference counter read there lies below 2.  Returning a buffer that
+    other handles hold as "private" lets the caller write into what they read."""
+    res = Result("DETACHSAME")
+    from .ival import Analysis
+    from .rules_ref import vtables, is_refcount_mem
+    from .rules_effect import root_of
+    seen = set()
+    n = 0
+    for g, u, rname, slot, fn, qn in vtables(prog):
+        if slot != "detach" or fn is None or fn.nocfg or fn.key() in seen or not fn.params:
+            continue
+        seen.add(fn.key())
+        f = fn
+        pid = f.params[0]["id"]
+        alias = {pid}
+        for b, i, m in f.walk_all():
+            if m.get("k") == "decl":
+                for v in m["vars"]:
+                    if v.get("init") is not None and root_of(v["init"]) in alias and f.T(v.get("t")).get("k") == "ptr":
+                        alias.add(v["id"])
+        cnt = None
+        for b, i, m in f.walk_all():
+            if m.get("k") == "mem" and is_refcount_mem(m) and root_of(m) in alias:
+                cnt = m
+        an = Analysis(prog, f).run()
+        for b, i, e in f.elements():
+            if e.get("k") != "ret" or e.get("e") is None or cval(e["e"]) == 0:
+                continue
+            if root_of(e["e"]) not in alias:
+                continue
+            n += 1
+            v = an.value_at(b.id, i, cnt) if cnt is not None else None
+            ok = v is not None and v.hi <= 1
+            res.ob("%s:%s at line %s" % (f.qn, norm(show(e, f)), e.get("l", f.line)), ok, f, e.get("l", f.line) or f.line,
+                   "" if ok else "`%s` hands the caller its own buffer back as the private one while the reference counter may be %s: other handles hold the same buffer and will see what the caller writes" % (
+                       norm(show(e, f)), "anything (never read)" if v is None else v))
+    if not n:
+        raise Broken("DETACHSAME: no detach implementation that returns its argument found")
+    return res
+
+
+def run_mustinstall(prog, ctx=None):
+    """MUSTINSTALL: a function that works on a handle and obtains a new buffer for it (`b = _mpt_buffer_alloc(..)`,
+    `b = old->_vptr->detach(old, ..)`: detach has given up the handle's reference to the old buffer) puts it into the handle
+    before it returns: from the non-null edge of the test of b every path to a return passes a store of b into memory
+    (`A->_buf = b`), hands b on (`return b`, an unref or another call that is given b), or assigns b again.  A path that
+    leaves early keeps the handle on a buffer it no longer owns and loses the new one."""
+    res = Result("MUSTINSTALL")
+    from .rules_path import funcs_of
+    files = set(ctx.get("files", [])) if ctx else None
+    for f in funcs_of(prog, files):
+        # handle parameters only: the buffer-level API hands the result to its caller
+        if not any(f.T(f.pointee(p["t"]) if f.pointee(p["t"]) is not None else -1).get("name", "").split("::")[-1] in HANDLES for p in f.params):
+            continue
+        for bid, blk in sorted(f.blocks.items()):
+            if not (blk.term and blk.term.get("cond") is not None and len(blk.succ) == 2):
+                continue
+            c = strip(blk.term["cond"], all_casts=True)
+            if blk.term.get("cls") != "BinaryOperator":
+                while c.get("k") == "bin" and c.get("op") in ("&&", "||"):
+                    c = strip(c["b"], all_casts=True)
+            neg = False
+            while c.get("k") == "un" and c.get("op") == "!":
+                neg = not neg
+                c = strip(c["e"], all_casts=True)
+            if not (c.get("k") == "bin" and c.get("op") == "="):
+                continue
+            l = strip(c["a"], lvalue_to_rvalue=False)
+            r = strip(c["b"], all_casts=True)
+            if not (l.get("k") == "ref" and l["d"].get("dk") == "local" and r.get("k") == "call"):
+                continue
+            nm = callee_name(r) or ""
+            slot = None
+            if r.get("callee") is not None:
+                ce = strip(r["callee"], all_casts=True)
+                slot = ce.get("f") if ce.get("k") == "mem" else None
+            if not (nm.startswith("_mpt_buffer_alloc") or slot == "detach"):
+                continue
+            vid, vn = l["d"]["id"], l["d"]["n"]
+            got = blk.succ[1 if neg else 0]
+            if got is None:
+                continue
+            gives = set()
+            # locals computed from b (addr = (char *) (b + 1)) stand for b where they are stored
+            dervs = {vid}
+            grew = True
+            while grew:
+                grew = False
+                for b2, i2, n in f.walk_all():
+                    pairs = []
+                    if n.get("k") == "bin" and n.get("op") == "=":
+                        l2 = strip(n["a"], lvalue_to_rvalue=False)
+                        if l2.get("k") == "ref" and "id" in l2["d"]:
+                            pairs.append((l2["d"]["id"], n["b"]))
+                    elif n.get("k") == "decl":
+                        pairs += [(v["id"], v["init"]) for v in n["vars"] if v.get("init") is not None]
+                    for v2, rhs in pairs:
+                        if v2 not in dervs and f.T(strip(rhs, all_casts=True).get("t")).get("k") == "ptr" and not any(m.get("k") == "call" for m in walk(rhs)) \
+                                and any(m.get("k") == "ref" and m["d"].get("id") in dervs for m in walk(rhs)):
+                            dervs.add(v2)
+                            grew = True
+            for b2, i2, e2 in f.elements():
+                for n in walk_own(e2):
+                    if n.get("k") == "bin" and n.get("op") == "=":
+                        ll = strip(n["a"], lvalue_to_rvalue=False)
+                        rr = strip(n["b"], all_casts=True)
+                        if ll.get("k") in ("mem", "un", "idx") and any(m.get("k") == "ref" and m["d"].get("id") in dervs for m in walk(n["b"])):
+                            gives.add(b2.id)        # the buffer, or an address inside it (path->base = buf + 1), becomes reachable from an object
+                        if ll.get("k") == "ref" and ll["d"].get("id") == vid and not (b2.id == bid):
+                            gives.add(b2.id)
+                    if n.get("k") == "call" and n is not r:
+                        ce2 = strip(n["callee"], all_casts=True) if n.get("callee") is not None else {}
+                        if ce2.get("k") == "mem" and ce2.get("f") in ("get_flags", "addref"):
+                            continue
+                        if any(strip(a, all_casts=True).get("k") == "ref" and strip(a, all_casts=True)["d"].get("id") == vid for a in n.get("args", [])):
+                            gives.add(b2.id)
+                if e2.get("k") == "ret" and e2.get("e") is not None:
+                    rv = strip(e2["e"], all_casts=True)
+                    if rv.get("k") == "ref" and rv["d"].get("id") == vid:
+                        gives.add(b2.id)
+            reach = ({got} | set(f.reachable_from(got, avoid=gives))) - gives
+            bad = None
+            for b2, i2, e2 in f.elements():
+                if b2.id in reach and e2.get("k") == "ret":
+                    bad = e2
+            res.ob("%s:%s = %s at line %s" % (f.qn, vn, nm or slot, c.get("l", f.line)), bad is None, f, (bad.get("l") if bad else c.get("l")) or f.line,
+                   "" if bad is None else "`%s` delivered a buffer into %s, and `%s` is reached without it having been stored into the handle or handed on: the handle keeps a buffer whose reference was given up, the new buffer is lost" % (
+                       norm(show(r, f))[:50], vn, norm(show(bad, f))[:40]))
+    return res
